@@ -64,7 +64,8 @@ def program(g, sim, base, m, mode, script, check):
     for op, a in script:
         selected = w.states[0]._selected is not None
         if op in ('store', 'uidstore'):
-            cond, _ = w.store(0, a['set'], [Seen, Deleted], a['mode'], uid=(op == 'uidstore'))
+            fsel = {'SD': [Seen, Deleted], '': [], 'R': [g['Recent']], 'K': [g['Flag'](b'$Forwarded')]}[a.get('flags', 'SD')]
+            cond, _ = w.store(0, a['set'], fsel, a['mode'], uid=(op == 'uidstore'))
             want = ('NO',) if selected else ('BAD',)
         elif op == 'expunge':
             cond, _ = w.expunge(0)
@@ -129,6 +130,7 @@ def _gen(eng, t, op, m, base):
         a['set'] = [[mk('a')], [(mk('a'), mk('b'))], [(mk('a'), '*')]][sh]
     if op in ('store', 'uidstore'):
         a['mode'] = ['ADD', 'DELETE', 'REPLACE'][eng.choose('mode%d' % t, 3)]
+        a['flags'] = ['SD', '', 'R', 'K'][eng.choose('flags%d' % t, 4)]
     return a
 
 
